@@ -99,6 +99,10 @@ def simulate_reads(rng, glen, cov, err, k):
             elif x < err + 0.002:
                 s[i] = "N"
         s = "".join(s)
+        if rng.random() < 0.06 and rlen > k + 1:
+            # an N with exactly k (or k+1) bases left behind it: the last window of the read still counts
+            p = rlen - k - rng.choice([1, 1, 2])
+            s = s[:p] + "N" + s[p + 1:]
         reads.append(revcomp(s) if rng.random() < 0.5 else s)
     return reads
 
